@@ -24,13 +24,13 @@ _w = gen._w
 PROFILES = {
     # connectives against warm caches, recycled numbers, post-swap tables
     'C01': dict(weights=_w(apply=22, ite=8, fop=8, cube=3, quant=1, let=1,
-                           gc=5, swap=4, reorder=1, redo=10, probe=6),
-                flavors=['raw', 'autoref'], nv=(2, 8), steps=(20, 120)),
+                           gc=5, swap=4, reorder=1, redo=10, probe=6, fork=1),
+                flavors=['raw', 'autoref'], nv=(2, 8), steps=(20, 120), m1_rate=0.15),
     # equal functions arriving by different routes at different times
     'C02': dict(weights=_w(apply=10, ite=4, eqcheck=8, find_or_add=8, let=4,
                            quant=2, add_expr=5, to_expr=2, gc=4, swap=4,
                            reorder=1, declare=2, undeclare=1, copy=3, dump=1, load=2,
-                           sizes=3),
+                           sizes=3, fork=1),
                 flavors=['raw', 'autoref'], nv=(1, 6), steps=(20, 120),
                 m1_rate=0.15),
     'C03': dict(weights=_w(quant=24, apply=8, gc=3, swap=3, reorder=1, redo=8, probe=8), probe_second=['quant'],
@@ -62,7 +62,7 @@ PROFILES = {
                 dyn=True, m1_rate=0.1),
     'C10': dict(weights=_w(support=8, count=8, pick=10, apply=8, gc=1, swap=3, reorder=1),
                 flavors=['raw', 'autoref'], nv=(1, 6), steps=(15, 70)),
-    'C11': dict(weights=_w(copy=16, copy_vars=1, apply=8, declare=3, gc=3, swap=5,
+    'C11': dict(weights=_w(copy=16, copy_vars=1, fork=1, apply=8, declare=3, gc=3, swap=5,
                            reorder=1, drop=6),
                 flavors=['raw', 'autoref'], nv=(1, 6), steps=(20, 100),
                 m1_rate=0.4),
